@@ -70,8 +70,12 @@ def _on_alarm(signum: int, frame: Any) -> None:
     raise _RunTimeout()
 
 
-def run_entry(entry: str, text: str, symbol_table: Any, cache_dir: Optional[pathlib.Path] = None) -> Dict[str, Any]:
-    """One (model, target|smoke) run judged by the statement of C02. Never raises."""
+def run_entry(
+    entry: str, text: str, symbol_table: Any, cache_dir: Optional[pathlib.Path] = None, snippets: Optional[Dict[str, str]] = None
+) -> Dict[str, Any]:
+    """One (model, target|smoke) run judged by the statement of C02. Never raises.
+
+    ``snippets``: exactly this snippet set instead of the complete one of ``mm.snippets_for``."""
     import signal
     import threading
 
@@ -86,7 +90,7 @@ def run_entry(entry: str, text: str, symbol_table: Any, cache_dir: Optional[path
             out_files = None
         else:
             out = mm.new_scratch("out")
-            r = mm.generate(entry, text, out, symbol_table=symbol_table, cache_dir=cache_dir)
+            r = mm.generate(entry, text, out, snippets=snippets, symbol_table=symbol_table, cache_dir=cache_dir)
             out_files = sum(1 for p in out.rglob("*") if p.is_file()) if out.exists() else 0
     except _RunTimeout:  # raised outside the guarded project call (our own bookkeeping)
         return {"entry": entry, "rc": None, "seconds": RUN_LIMIT_S, "outcome": "timeout"}
@@ -144,9 +148,27 @@ def run_model(text: str, entries: Sequence[str] = ENTRIES) -> Dict[str, Any]:
     out["frontend"] = "accepted"
     cache = mm.new_scratch("cache")
     for e in entries:
-        out["runs"].append(run_entry(e, text, ld.symbol_table, cache_dir=cache))
+        if ":without:" in e:
+            # "<target>:without:<snippet key>": the complete snippet set but one
+            target, _, missing = e.split(":", 2)
+            full = mm.snippets_for(target, ld.symbol_table)
+            r = run_entry(target, text, ld.symbol_table, cache_dir=cache, snippets={k: v for k, v in full.items() if k != missing})
+            r["entry"] = e
+            out["runs"].append(r)
+        else:
+            out["runs"].append(run_entry(e, text, ld.symbol_table, cache_dir=cache))
     _sweep_scratch()
     return out
+
+
+def incomplete_snippet_entries(text: str) -> List[str]:
+    """``<target>:without:<key>`` for every snippet of the complete sets of the model (the snippet set is an input as well:
+    a missing snippet has to be reported, whatever is missing)."""
+    mm = _mm()
+    ld = mm.load(text)
+    if not ld.ok:
+        return []
+    return [f"{t}:without:{k}" for t in TARGETS for k in sorted(mm.snippets_for(t, ld.symbol_table))]
 
 
 def _sweep_scratch() -> None:
@@ -175,7 +197,8 @@ def judge(ctx: Ctx, name: str, text: str, stream: str, res: Dict[str, Any], expe
         ctx.note(f"corpus model {name} is no longer accepted by the front end: {res.get('frontend_error', '')[:120]}")
     for r in res["runs"]:
         ctx.evaluations += 1
-        ctx.hit(f"{r['entry']}:{r['outcome']}")
+        entry_class = r["entry"].split(":without:")[0] + (":without-a-snippet" if ":without:" in r["entry"] else "")
+        ctx.hit(f"{entry_class}:{r['outcome']}")
         if r["outcome"] in ("crash", "bad"):
             # at most two witnesses per root cause: ctx.fail keeps only the first 200 failures
             seen = sum(1 for f in ctx.failures if f["sig"] == r["sig"])
@@ -183,7 +206,7 @@ def judge(ctx: Ctx, name: str, text: str, stream: str, res: Dict[str, Any], expe
             if seen < 2:
                 ctx.fail(dict(inp, entry=r["entry"]), f"{r['entry']}: {r['what']}", r["sig"], {"entry": r["entry"]})
         elif r["outcome"] == "error":
-            ctx.hit(f"{r['entry']}:error:{r['headline'][:70]}")
+            ctx.hit(f"{entry_class}:error:{r['headline'][:70]}")
         elif r["outcome"] == "timeout":
             ctx.note(f"{r['entry']} did not finish within {RUN_LIMIT_S} s on the model {name} (stream {stream}); not judged")
     if len(ctx.samples) < 12 and res["accepted"]:
@@ -273,6 +296,108 @@ def colliding_name_models() -> Iterator[Tuple[str, str]]:
         yield f"collide-support-prop-{p}", HEADER_MM + _cls("Thing", [(p, "str")])
 
 
+# --------------------------------------------------------------------------- edge shapes (seed independent)
+
+#: expressions (over ``self.flag: bool`` and ``self.val: str``) that the front end accepts although they are unusual at their
+#: position: a callee which is not a function, a formatted value whose transpiled code spans several lines
+EDGE_INVARIANT_EXPRS = [
+    # -- the callee is a name which is not a function: the instance, a loop variable
+    ("call-of-instance", "self(1) > 0"),
+    ("call-of-loop-variable", "all(i(1) > 0 for i in range(0, len(self.val)))"),
+    # -- formatted values of an f-string: boolean connectives (their transpiled code is broken into lines), a quantifier
+    ("fstring-implication", 'len(f"{not self.flag or self.flag}") > 0'),
+    ("fstring-and", 'len(f"{self.flag and self.flag}") > 0'),
+    ("fstring-all", 'len(f"{all(i >= 0 for i in range(0, len(self.val)))}") > 0'),
+    ("fstring-plain", 'len(f"{self.val}-{len(self.val)}") > 0'),
+]
+
+#: description texts for the class / property / enumeration / literal / constant docstrings (the C20 check feeds hundreds of
+#: nasty texts through one fixed model; here only the shapes that reach distinct *renderer* branches of the description modules)
+EDGE_DESCRIPTIONS = [
+    ("backtick-in-literal", "Represent ``a`b`` something."),
+    ("ends-in-vertical-tab", "Represent something. \x0b"),
+    ("ends-in-form-feed", "Represent something.\n\nSome remark \x0c"),
+    ("literal-with-at-and-braces", "Represent ``@x {y} */ \\`` something."),
+]
+
+
+def _edge_invariant_model(expr: str, on_primitive: bool) -> str:
+    if on_primitive:
+        # the invariant of a constrained primitive: ``self`` is the value itself
+        e = expr.replace("self.val", "self").replace("self.flag", "(len(self) > 0)")
+        return (
+            HEADER_MM
+            + f'@invariant(\n    lambda self: {e},\n    "Some constraint.",\n)\nclass Limit(str, DBC):\n    """Represent a limit."""\n\n\n'
+            + _cls("Thing", [("limit", "Limit")])
+        )
+    return (
+        HEADER_MM
+        + f'@invariant(\n    lambda self: {expr},\n    "Some constraint.",\n)\n'
+        + _cls("Thing", [("flag", "bool"), ("val", "str")])
+    )
+
+
+def _edge_function_model(expr: str) -> str:
+    e = expr.replace("self.val", "val").replace("self.flag", "flag").replace("self(", "val(")
+    return (
+        HEADER_MM
+        + f'@verification\ndef is_fine(flag: bool, val: str) -> bool:\n    """Check it."""\n    return {e}\n\n\n'
+        + '@invariant(\n    lambda self: is_fine(self.flag, self.val),\n    "Some constraint.",\n)\n'
+        + _cls("Thing", [("flag", "bool"), ("val", "str")])
+    )
+
+
+def _edge_description_model(desc: str) -> str:
+    from harness.props.c20_files import lit
+
+    d = lit(desc)
+    return (
+        HEADER_MM
+        + f"class Kind(Enum):\n    {d}\n\n    First = \"first\"\n    {d}\n\n\n"
+        + f"class Thing(DBC):\n    {d}\n\n    kind: Kind\n    {d}\n\n    def __init__(self, kind: Kind) -> None:\n        self.kind = kind\n\n\n"
+        + f"Some_text: str = constant_str(\n    value=\"x\",\n    description={d},\n)\n"
+    )
+
+
+#: everything that needs a snippet: an implementation-specific class, constructor, method and verification function
+SPECIFIC_MODEL = (
+    HEADER_MM
+    + '@implementation_specific\nclass Special(DBC):\n    """Represent something special."""\n\n    val: str\n    """Hold a value."""\n\n'
+    + "    def __init__(self, val: str) -> None:\n        self.val = val\n\n\n"
+    + 'class Plain(DBC):\n    """Represent something plain."""\n\n    @implementation_specific\n    def __init__(self) -> None:\n        pass\n\n\n'
+    + 'class Thing(DBC):\n    """Represent a thing."""\n\n    special: Special\n    """Hold something special."""\n\n'
+    + '    plain: Plain\n    """Hold something plain."""\n\n'
+    + "    def __init__(self, special: Special, plain: Plain) -> None:\n        self.special = special\n        self.plain = plain\n\n"
+    + '    @implementation_specific\n    def compute(self) -> str:\n        """Compute something."""\n\n\n'
+    + '@verification\n@implementation_specific\ndef is_fine(text: str) -> bool:\n    """Check it."""\n'
+)
+
+
+def edge_models() -> Iterator[Tuple[str, str]]:
+    """Seed-independent: small accepted models, each with one construct at the edge of what the front end accepts."""
+    # -- enumerations and classes at their smallest
+    empty_enum = 'class Kind(Enum):\n    """Represent a kind."""\n\n\n'
+    yield "edge-enum-without-literals-used", HEADER_MM + empty_enum + _cls("Thing", [("kind", "Optional[Kind]")])
+    yield "edge-enum-without-literals-unused", HEADER_MM + empty_enum + _cls("Thing", [("val", "str")])
+    # -- constructors: no argument but a call to the constructor of the parent; one argument passed on; two arguments
+    yield (
+        "edge-constructor-shapes",
+        HEADER_MM
+        + '@abstract\nclass Parent(DBC):\n    """Represent a parent."""\n\n    def __init__(self) -> None:\n        pass\n\n\n'
+        + 'class Child(Parent):\n    """Represent a child."""\n\n    def __init__(self) -> None:\n        Parent.__init__(self)\n\n\n'
+        + _cls("Holder", [("child", "Child"), ("other", "Optional[Child]")]),
+    )
+    for name, expr in EDGE_INVARIANT_EXPRS:
+        yield f"edge-invariant-{name}", _edge_invariant_model(expr, on_primitive=False)
+    # the same construct classes in the two other positions where an expression is transpiled (one representative each)
+    yield "edge-primitive-invariant-call-of-instance", _edge_invariant_model("self(1) > 0", on_primitive=True)
+    yield "edge-primitive-invariant-fstring-implication", _edge_invariant_model(EDGE_INVARIANT_EXPRS[2][1], on_primitive=True)
+    yield "edge-function-call-of-argument", _edge_function_model("self(1) > 0")
+    yield "edge-function-fstring-implication", _edge_function_model(EDGE_INVARIANT_EXPRS[2][1])
+    for name, desc in EDGE_DESCRIPTIONS:
+        yield f"edge-description-{name}", _edge_description_model(desc)
+
+
 def fixture_models() -> List[pathlib.Path]:
     seen = set()
     out = []
@@ -319,7 +444,7 @@ def random_models(rng: Any, n_default: int, seeds_per_hazard: int, n_everything:
 
 
 def all_models(ctx: Ctx) -> Iterator[Tuple[str, str, str]]:
-    """(name, stream, text) in a deterministic order: corpus, fixtures, enumerated hierarchies, collisions, random."""
+    """(name, stream, text) in a deterministic order: corpus, fixtures, enumerated hierarchies, collisions, edge shapes, random."""
     for c in corpus(ID):
         yield c["name"], "corpus", c["text"]
     fixtures = fixture_models()
@@ -345,6 +470,10 @@ def all_models(ctx: Ctx) -> Iterator[Tuple[str, str, str]]:
         yield name, "hierarchy", text
     for name, text in colliding_name_models():
         yield name, "collision", text
+    for name, text in edge_models():
+        yield name, "edge", text
+    # one model, every target, every snippet of the complete set left out once (see run_model / _work)
+    yield "specific-model-with-incomplete-snippets", "incomplete-snippets", SPECIFIC_MODEL
     yield from random_models(ctx.rng, ctx.n(12, 500), 1 if ctx.tier == "quick" else 8, ctx.n(3, 100))
 
 
@@ -354,6 +483,12 @@ def all_models(ctx: Ctx) -> Iterator[Tuple[str, str, str]]:
 def _work(item: Tuple[str, str, str]) -> Dict[str, Any]:
     name, stream, text = item
     try:
+        if stream == "incomplete-snippets":
+            return run_model(text, list(ENTRIES) + incomplete_snippet_entries(text))
+        if stream == "corpus":
+            # a witness may name the entries to run beside the standard ones (e.g. "java:without:<snippet key>")
+            extra = next((c.get("entries", []) for c in corpus(ID) if c["name"] == name and c["text"] == text), [])
+            return run_model(text, list(ENTRIES) + list(extra))
         return run_model(text)
     except BaseException as e:  # noqa: B902  (harness problem, not a project crash)
         return {"accepted": False, "frontend": "harness-error", "runs": [], "error": f"{type(e).__name__}: {e}", "tb": traceback.format_exc()}
@@ -403,7 +538,7 @@ def replay(ctx: Ctx, data: Dict[str, Any]) -> Dict[str, Any]:
         return {"target": inp["target"], "failed_checks": f, "step_outcomes": o, "impl": impl, "model": model,
                 "property_holds": not (impl.startswith("crash") or impl.startswith("odd") or (impl == "exit0" and bool(f or o)))}
     text = inp["text"]
-    entries = [inp["entry"]] if inp.get("entry") in ENTRIES else list(ENTRIES)
+    entries = [inp["entry"]] if (inp.get("entry") in ENTRIES or ":without:" in str(inp.get("entry"))) else list(ENTRIES)
     res = run_model(text, entries)
     return {"name": inp.get("name"), "frontend": res["frontend"], "frontend_sig": res.get("frontend_sig"),
             "runs": [{k: r.get(k) for k in ("entry", "outcome", "rc", "sig", "what", "headline")} for r in res["runs"]],
